@@ -432,7 +432,7 @@ def main():
                   "array uses": "none / argument / keyword / index / inside a loop body; also with the parameter arrays replaced by Fortran-ordered copies",
                   "symbolic expression shapes": "the C01 family over parameters (quick: every 9th; thorough: all)"}
     rep.assumptions = [
-        "instantiated values are compared by value (kinds and array dtypes of instances are not compared: {a}*0 is the integer 0 in SymPy)",
+        "instantiated values are compared by value (scalar kinds of instances are not compared: {a}*0 is the integer 0 in SymPy; a fully instantiated array must be a numeric array, its element kind is not compared)",
         "parameter values are symbolic reals (float-tagged); floats are reals, so 'cancels catastrophically' is outside the model by construction",
         "divisors != 0 (reference domain conditions) are assumed",
         "SymPy boundary: literal coefficients inside an expression that contains a parameter are concrete",
